@@ -462,7 +462,7 @@ class Stack:
         elif f == "send_burst":
             specs, dest, count = a
             ents = [lib_entry(spec_entry(x)) for x in specs]
-            remote = None if dest is None else PEERS[dest]
+            remote = None if dest is None else PEERS[dest] if isinstance(dest, int) else (dest[0], dest[1])
             for _ in range(count):
                 prot.send_sd(ents, remote=remote)
         elif f == "send_sd":
